@@ -113,8 +113,14 @@ class SwitchWriteHandler(AbstractWriteHandler):
                                 self.start_vertex,
                                 check_end_block=self.check_end_block,
                             )
+                            output_length_before = len(self.decompiler._output)
                             handler.write_content()
-                            if (
+                            if len(self.decompiler._output) == output_length_before:
+                                # Nothing was written for this block (it leads directly to the end of the switch):
+                                # without a break it would share the block of the next case, or end the switch
+                                # with an empty case.
+                                self.decompiler.write_stmnt("break;")
+                            elif (
                                 not isinstance(handler.last_handler_in_block, LabelWriteHandler)
                                 or not handler.last_handler_in_block.switch_fell_through
                             ):
